@@ -474,7 +474,64 @@ func runC12(r *Run) {
 				}
 			}
 		}
+		// the same override written as one assignment of a whole element: r.messages[i] = redirectionMsg{…}
+		var levelVals []ssa.Value
+		for _, b := range f.Blocks {
+			for _, in := range b.Instrs {
+				st, ok := in.(*ssa.Store)
+				if !ok {
+					continue
+				}
+				if ia, ok := st.Addr.(*ssa.IndexAddr); ok && loadOfField(ia.X, "Redirect.messages") {
+					overrides = append(overrides, in)
+					if ld, ok := stripValue(st.Val).(*ssa.UnOp); ok && ld.Op == token.MUL {
+						if al, ok := ld.X.(*ssa.Alloc); ok {
+							for _, ls := range storesInto(al) {
+								if lfa, ok := ls.Addr.(*ssa.FieldAddr); ok {
+									if fv := fieldOfValue(lfa); fv != nil && fv.Name() == "level" {
+										levelVals = append(levelVals, ls.Val)
+									}
+								}
+							}
+						}
+					}
+				}
+				if fa, ok := st.Addr.(*ssa.FieldAddr); ok {
+					if ia, ok := fa.X.(*ssa.IndexAddr); ok && loadOfField(ia.X, "Redirect.messages") {
+						if fv := fieldOfValue(fa); fv != nil && fv.Name() == "level" {
+							levelVals = append(levelVals, st.Val)
+						}
+					}
+				}
+			}
+		}
 		r.need(len(overrides) >= 1, "With overrides an existing message in place")
+		// the level delivered is the level of the last With: what the override stores as level comes from this call's argument
+		okLevel := len(levelVals) >= 1
+		for _, lv := range levelVals {
+			fromArg := dependsOn(lv, func(v ssa.Value) bool {
+				p, ok := v.(*ssa.Parameter)
+				return ok && p.Name() == "level"
+			}) != nil
+			fromOld := dependsOn(lv, func(v ssa.Value) bool {
+				if fa, ok := v.(*ssa.FieldAddr); ok {
+					if fv := fieldOfValue(fa); fv != nil && fv.Name() == "level" {
+						return true
+					}
+				}
+				if fl, ok := v.(*ssa.Field); ok {
+					if fv := fieldVar(fl.X.Type(), fl.Field); fv != nil && fv.Name() == "level" {
+						return true
+					}
+				}
+				return false
+			}) != nil
+			if !fromArg || fromOld {
+				okLevel = false
+			}
+		}
+		r.check(okLevel, "With:override-takes-the-call's-level", r.fpos(f), "the overriding entry's level is this call's level argument",
+			"With(key, …) on a key that was flashed before stores the old entry's level (or no level) instead of this call's: `With(\"status\", \"saving failed\", 40)` then `With(\"status\", \"saved\", 60)` delivers level 40 — the level of a delivered message is not the one attached last")
 		cut := map[edge]bool{}
 		for _, br := range branchesIn(f) {
 			isOld := false
